@@ -258,13 +258,36 @@ def run_harness(reqs, jobs):
     outs = [None] * jobs
 
     def work(i):
-        inp = ("\n".join(json.dumps(r) for r in parts[i]) + "\n").encode()
-        try:
-            p = subprocess.run([exe], input=inp, stdout=subprocess.PIPE, stderr=subprocess.DEVNULL,
-                               timeout=120 + 3 * len(parts[i]))
-            outs[i] = p.stdout.decode("utf-8", "replace")
-        except subprocess.TimeoutExpired as e:
-            outs[i] = (e.stdout or b"").decode("utf-8", "replace")
+        pending = list(parts[i])
+        got = []
+        # a history that crashes the process (e.g. a panic in a read loop) takes the process down:
+        # restart behind it, the history itself stays unanswered and is reported by the oracle
+        for _ in range(40):
+            if not pending:
+                break
+            inp = ("\n".join(json.dumps(r) for r in pending) + "\n").encode()
+            try:
+                p = subprocess.run([exe], input=inp, stdout=subprocess.PIPE, stderr=subprocess.PIPE,
+                                   timeout=120 + 3 * len(pending))
+                out, err = p.stdout.decode("utf-8", "replace"), p.stderr.decode("utf-8", "replace")
+            except subprocess.TimeoutExpired as e:
+                out, err = (e.stdout or b"").decode("utf-8", "replace"), "timeout"
+            lines = [l for l in out.split("\n") if l.strip()]
+            n = 0
+            for l in lines:
+                try:
+                    json.loads(l)
+                    got.append(l)
+                    n += 1
+                except ValueError:
+                    break
+            if n >= len(pending):
+                break
+            crashed = pending[n]
+            tail = [l for l in err.split("\n") if l.startswith(("panic:", "fatal error:"))][:2]
+            got.append(json.dumps({"id": crashed["id"], "steps": [], "died": " ".join(tail) or err[-300:]}))
+            pending = pending[n + 1:]
+        outs[i] = "\n".join(got)
 
     th = [threading.Thread(target=work, args=(i,)) for i in range(jobs) if parts[i]]
     for t in th:
@@ -290,7 +313,9 @@ def oracle(q, r):
     """returns a list of (what, signature) - empty when the property holds on this history"""
     bad = []
     if r is None:
-        return [("the harness process died or produced no answer for this history", None)]
+        return [("the harness produced no answer for this history", None)]
+    if r.get("died") is not None:
+        return [("the process running the transport died during this history: " + r["died"], None)]
     steps = r["steps"]
     if r.get("aborted"):
         bad.append(("a call or a goroutine did not come to rest within 1 s: " + r["aborted"], None))
@@ -525,7 +550,7 @@ def run(ctx, br):
         for what, sig in oracle(q, r)[:2]:
             oracle_fail += 1
             ctx.violation("C15 oracle: " + what, small(q, r), signature=sig)
-    idx = [i for i, r in enumerate(resps) if r is not None]
+    idx = [i for i, r in enumerate(resps) if r is not None and r.get("died") is None]
     verdicts = vlib.run_judge(ctx.rundir, "JLifecycle", "judge", [judge_case(reqs[i], resps[i]) for i in idx], shard=600000)
     mism = 0
     masks = {}
